@@ -328,6 +328,15 @@ func compactSrc(s string) string {
 // template's package whose parameters include the template's parameters (same name and type).
 func applyTemplates(P *Program, C *Contracts) {
 	for _, t := range C.Templates {
+		// func-type contracts of the same package take the template's clauses too
+		for _, fc := range C.Funcs {
+			if fc.Pkg == t.Pkg && fc.Flags["functype"] && !fc.Flags["templated"] {
+				fc.Flags["templated"] = true
+				fc.Requires = append(append([]*Clause{}, t.Requires...), fc.Requires...)
+				fc.Ensures = append(append([]*Clause{}, t.Ensures...), fc.Ensures...)
+				fc.Modifies = append(append([]*Clause{}, t.Modifies...), fc.Modifies...)
+			}
+		}
 		sp := P.SSA[t.Pkg]
 		if sp == nil {
 			continue
@@ -369,6 +378,7 @@ func applyTemplates(P *Program, C *Contracts) {
 			fc.Requires = append(append([]*Clause{}, t.Requires...), fc.Requires...)
 			fc.Ensures = append(append([]*Clause{}, t.Ensures...), fc.Ensures...)
 			fc.Modifies = append(append([]*Clause{}, t.Modifies...), fc.Modifies...)
+			fc.AllLoops = append(fc.AllLoops, t.LoopInvs...)
 			for k, v := range t.Flags {
 				if _, set := fc.Flags[k]; !set {
 					fc.Flags[k] = v
